@@ -40,7 +40,7 @@ def upload_scenario(rng, n, plens, outgoing):
 class C09(HndBase):
     id = "C09"
     proof_target = "Props/C09.vo"
-    theorems = ["C09_reply", "C09_manager", "C09_choke_drops"]
+    theorems = ["C09_reply", "C09_manager", "C09_choke_drops", "C09_served_is_verified", "C09_loaded_stays_verified", "C09_store_stays_verified"]
     coq_header = ("From Rdest Require Import Base Consts Wire Manager Handler Corr.Hnd.\nOpen Scope N_scope.\n"
                   "Definition codes := codes09.\n")
     rule = ("upload histories on the real PeerHandler: pieces stored on disk (some truncated), our choke/unchoke decisions "
